@@ -27,6 +27,7 @@
 import PS.Proofs.Sampler
 import PS.Proofs.SamplerGrammar
 import PS.Proofs.SamplerU
+import PS.Proofs.SamplerValue
 import Mathlib.Data.List.Nodup
 namespace PS.Props.C09
 open PS PS.Sampler
@@ -52,6 +53,13 @@ example : ([1/8, 1/2, 1/8, 1/4] : List Rat).sum = 1 := by decide +kernel
 example : build [7/10, 1/10, 1/10, 1/10] = ⟨[0, 0, 0, 0], [1, 2/5, 2/5, 2/5]⟩ := by decide +kernel
 example : (List.range 4).map (aliasDist (build [7/10, 1/10, 1/10, 1/10])) = [7/10, 1/10, 1/10, 1/10] := by
   decide +kernel
+
+/-- finding C09-F2 (repaired by proposed_fixes/C09-F2.diff): with the former `avg = 1/n` the
+    tables built from the unnormalised weights 2,1,1 are uniform, whereas the statement (and
+    `vose.Sampler`) asks for 1/2, 1/4, 1/4 -/
+theorem finding_unnormalised :
+    (List.range 3).map (aliasDist (buildOld [2, 1, 1])) = [1/3, 1/3, 1/3] ∧
+    (List.range 3).map (normalised [2, 1, 1]) = [1/2, 1/4, 1/4] := by decide +kernel
 
 /-- for non-negative weights with positive total every coin bias is a probability, so that
     "heads with probability `proba[col]`" is what `uniform() < proba[col]` does -/
@@ -122,38 +130,6 @@ example : (lexWeights 3 none).sum ≠ 0 := by decide +kernel
 theorem C09_length_table (ps : List Rat) (i : Nat) (h : i < ps.length) :
     (lengthTable ps)[i]? = some (i + 1, ps.getD i 0) := by
   simp [lengthTable, h]
-
-theorem repeatM_length {σ β : Type} (f : σ → Option (β × σ)) :
-    ∀ (k : Nat) (s : σ) (bs : List β) (s' : σ), PS.Sampler.repeatM f k s = some (bs, s') → bs.length = k
-  | 0, s, bs, s', h => by
-    simp only [PS.Sampler.repeatM, Option.some.injEq, Prod.mk.injEq] at h
-    rw [← h.1]; rfl
-  | k + 1, s, bs, s', h => by
-    unfold PS.Sampler.repeatM at h
-    cases hf : f s with
-    | none => simp [hf] at h
-    | some p =>
-      obtain ⟨b, s1⟩ := p
-      simp only [hf] at h
-      cases hr : PS.Sampler.repeatM f k s1 with
-      | none => simp [hr] at h
-      | some q =>
-        obtain ⟨bs', s2⟩ := q
-        simp only [hr, Option.some.injEq, Prod.mk.injEq] at h
-        rw [← h.1]
-        simp [repeatM_length f k s1 bs' s2 hr]
-
-theorem list_shape_aux (f : LDraws → Option (Val × LDraws)) (len : Nat) (d1 d' : LDraws) (v : Val)
-    (h : (match PS.Sampler.repeatM f len d1 with
-          | none => none
-          | some (vs, d2) => some (Tree.node none vs, d2)) = some (v, d')) :
-    ∃ vs, v = Tree.node none vs ∧ vs.length = len := by
-  cases hr : PS.Sampler.repeatM f len d1 with
-  | none => simp [hr] at h
-  | some q =>
-    obtain ⟨vs, d2⟩ := q
-    simp only [hr, Option.some.injEq, Prod.mk.injEq] at h
-    exact ⟨vs, h.1.symm, repeatM_length f len d1 vs d2 hr⟩
 
 /-- ListSampler: a value of list type is a list whose length is the entry of the length table
     selected by the next draw of the length sampler -/
